@@ -162,8 +162,8 @@ C03_Frame ==
 \* ------------------------------------------------------------------ generation
 \* skey: the abstract table reached, used only to send histories that end in the same table to the same
 \* validation shard (so that identical observations are validated once)
-CaseOf == [fam |-> "router", cfg |-> rt.cfg @@ [lock |-> FALSE], ops |-> hist, battery |-> Battery,
-           skey |-> ToString([p \in Live(rt) |-> MethodsOf(rt, p)])] @@ CaseExtra
+CaseOf == CaseExtra @@ [fam |-> "router", cfg |-> rt.cfg @@ [lock |-> FALSE], ops |-> hist, battery |-> Battery,
+                        skey |-> ToString([p \in Live(rt) |-> MethodsOf(rt, p)])]
 Emit == (Len(hist) > nbase /\ (EmitAll \/ Len(hist) - nbase = Depth)) => PrintT("CASE " \o ToJson(CaseOf))
 PoolLine == PrintT("POOL " \o ToJson([pool |-> [probes |-> Probes, methods |-> ProbeMethods, urls |-> UrlProbes, rt |-> RoundTrip, th |-> THProbes, link |-> Link]]))
 =============================================================================
